@@ -140,7 +140,7 @@ def run(tier, seed):
              'text, split into fragments at every subset of byte boundaries (incl. an empty first fragment), with and without a Ping '
              'between fragments, and as close reason, x reads per frame / per byte / random; (c) all frame sequences of the session model '
              'over a text-fragment alphabet; non-trivial = distinct (frame sequence, number of reads) with non-ASCII text bytes',
-        nontrivial=nontrivial, anchors=anchors, variants=variants, extra=extra, sample_keys=('ev',), keep_reads=True)
+        nontrivial=nontrivial, need_actions=('FeedNext',), anchors=anchors, variants=variants, extra=extra, sample_keys=('ev',), keep_reads=True)
     need = {'rejected_text', 'non_ascii_text_delivered', 'ping_between_fragments', 'empty_first_fragment', 'close_reason'}
     missing = sorted(need - seen)
     return r.finish(vacuous=('never exercised: %s' % missing) if missing else None)
